@@ -642,6 +642,7 @@ namespace fsh
         {
             std::vector<double> val;
             const impl_type* im;
+            bool local = false;
         };
         struct KNode
         {
@@ -657,7 +658,7 @@ namespace fsh
             int min_block = static_cast<int>(l.nint());
             int min_level = static_cast<int>(l.nint());
             const size_type n = grid.size();
-            KData data{ std::vector<double>(n, -1.0), &graph->impl() };
+            KData data{ std::vector<double>(n, -1.0), &graph->impl(), dir == "any" };
             fs::detail::flow_kernel k;
             k.func = [](void* p)
             {
@@ -671,6 +672,12 @@ namespace fsh
                 auto* nd = static_cast<KNode*>(p);
                 nd->idx = i;
                 nd->best = -1.0;
+                if (kd->local)
+                {
+                    // order-independent kernel for the `any` traversal: own index only
+                    nd->best = static_cast<double>(i);
+                    return 0;
+                }
                 const auto& im = *kd->im;
                 for (size_type r = 0; r < im.receivers_count()(i); ++r)
                 {
